@@ -199,7 +199,10 @@ func batch(args []string) {
 		if r.Violation != nil {
 			sum.Violations++
 			rec := minimise(prop, tape.Record(), r, i, *tier, *noShrink)
-			enc.Encode(rec)
+			if err := enc.Encode(rec); err != nil {
+				fmt.Fprintln(os.Stderr, "worker: cannot encode violation record:", err)
+				os.Exit(2)
+			}
 			w.Flush()
 			if sum.Violations >= *maxViol {
 				sum.Truncated = true
@@ -217,7 +220,10 @@ func batch(args []string) {
 	sum.SitesSeen = simhook.SitesSeen()
 	sum.WallS = time.Since(t0).Seconds()
 	sum.Digest = fmt.Sprintf("%016x", digest)
-	enc.Encode(sum)
+	if err := enc.Encode(sum); err != nil {
+		fmt.Fprintln(os.Stderr, "worker: cannot encode summary:", err)
+		os.Exit(2)
+	}
 	w.Flush()
 	of.Close()
 }
